@@ -12,7 +12,7 @@ PROPERTY = "C12"
 LEVEL = "fault_enumeration"
 CODE = ["yowsup/layers/__init__.py:YowLayer.toLower/toUpper, YowParallelLayer", "yowsup/layers/noise/layer.py:send/receive/_flush_incoming_buffer",
         "yowsup/layers/noise/layer_noise_segments.py:send", "yowsup/layers/coder/layer.py", "yowsup/layers/logger/layer.py", "yowsup/stacks/yowstack.py:getDefaultLayers"]
-BOUNDS = {"quick": "9 failure kinds (5 downward incl. socket error and interrupt, 4 upward) x position 0..2 in a sequence of 3 operations x follow-up in {send, incoming frame}; oversize length symbolic in [2^24, 2^25]",
+BOUNDS = {"quick": "11 failure kinds (6 downward incl. socket error, interrupt, connection found dead by the write; 5 upward incl. a failing key request for a parked message) x position 0..2 in a sequence of 3 operations x follow-up in {send, incoming frame}; oversize length symbolic in [2^24, 2^25]",
           "thorough": "same with sequences of 5 operations and every follow-up after every failure"}
 OUTSIDE = ["blocking behaviour of real OS threads (locks are replaced by recording non-blocking locks: a lock still held after the failure is what would block any later thread forever)",
            "the real Noise transport (stubbed: encrypt = tag + data), reconnects (C16)"]
@@ -91,6 +91,11 @@ class Dispatcher(object):
     def sendData(self, d):
         if self.fail_next is not None:
             e, self.fail_next = self.fail_next, None
+            if e == "found-dead":
+                # the write discovers that the peer is gone (EPIPE): the dispatcher closes and reports the disconnect from inside the send,
+                # as the asyncore dispatcher's handle_close() does; the data is dropped
+                self.net.onDisconnected()
+                return
             raise e
         self.sent.append(d)
 
@@ -107,11 +112,21 @@ def build():
     from yowsup.layers.noise.layer_noise_segments import YowNoiseSegmentsLayer
     from yowsup.layers.protocol_iq import YowIqProtocolLayer
 
+    from yowsup.layers import EventCallback
+    from yowsup.layers.network import YowNetworkLayer
+
     class App(YowLayer):
         def __init__(self):
             super(App, self).__init__()
             self.up = []
             self.fail_next = False
+            self.saw_disconnect = 0
+
+        @EventCallback(YowNetworkLayer.EVENT_STATE_DISCONNECTED)
+        def on_disconnected(self, ev):
+            # an application that reacts to a lost connection by sending (it will reconnect and announce itself)
+            self.saw_disconnect += 1
+            self.toLower(_good_entity())
 
         def receive(self, e):
             if self.fail_next:
@@ -144,6 +159,7 @@ def build():
             l.lock.name = "%d:%s" % (i, type(l).__name__)
     net, seg, noise = insts[0], insts[1], insts[2]
     disp = Dispatcher()
+    disp.net = net
     net._dispatcher = disp
     net.connected = True
     net.state = net.STATE_CONNECTED
@@ -180,8 +196,9 @@ def _seg(frame):
     return bytes([(n >> 16) & 255, (n >> 8) & 255, n & 255]) + frame
 
 
-DOWN_FAULTS = ("unencodable-value", "oversize-frame", "no-transport-session", "socket-write-fails", "interrupted-during-socket-write")
-UP_FAULTS = ("undecryptable-frame", "undecodable-frame", "rejected-stanza", "application-callback-raises")
+DOWN_FAULTS = ("unencodable-value", "oversize-frame", "no-transport-session", "socket-write-fails", "interrupted-during-socket-write", "connection-found-dead-during-write")
+SILENT = ("connection-found-dead-during-write",)          # the caller sees no exception: the disconnect is announced by an event instead
+UP_FAULTS = ("undecryptable-frame", "undecodable-frame", "rejected-stanza", "application-callback-raises", "key-request-for-incoming-message-fails-below")
 
 
 def _do_send_ok(top, disp):
@@ -226,6 +243,15 @@ def _inject_fault(ctx, kind, st, insts, disp, net, noise, top):
                 return e
             finally:
                 disp.fail_next = None
+        elif kind == "connection-found-dead-during-write":
+            disp.fail_next = "found-dead"
+            top.toLower(_good_entity())
+            _run_detached(st)                      # the stack's loop delivers the deferred part of the event
+            net.connected, net.state = True, net.STATE_CONNECTED      # the application's reconnect
+        elif kind == "key-request-for-incoming-message-fails-below":
+            _no_session_manager(ctx, insts)
+            disp.fail_next = OSError(32, "Broken pipe")
+            net.receive(_seg(_frame(_enc_message("m1"))))
         elif kind == "undecryptable-frame":
             net.receive(_seg(b"CORRUPT ciphertext whose tag does not verify"))
         elif kind == "undecodable-frame":
@@ -279,6 +305,34 @@ def _wire_is_whole_frames(ctx, chunks):
     return bool(rope.length() == 0)
 
 
+def _run_detached(st):
+    from checks import c16
+    c16.run_loop(st)
+
+
+def _enc_message(mid):
+    N = SC.N()
+    return N("message", {"id": mid, "from": "4915907654321@s.whatsapp.net", "type": "text", "t": "1400000000", "notify": "nn"}, [N("enc", {"type": "msg", "v": "2"}, None, b"\x33\x08ciphertext")])
+
+
+def _no_session_manager(ctx, insts):
+    """the contact's message cannot be decrypted for lack of a session: the receive layer parks it and asks for the contact's keys"""
+    from checks import c03
+
+    class NoSession(c03.IdealManager):
+        def _decrypt(self, who):
+            from yowsup.axolotl import exceptions as X
+            self.calls.append(("decrypt", who))
+            raise X.NoSessionException()
+    mgr = NoSession(ctx, sessions=False, outcome="no-session")
+    for l in insts:
+        if hasattr(l, "_manager"):
+            l._manager = mgr
+        for s_ in getattr(l, "sublayers", ()):
+            if hasattr(s_, "_manager"):
+                s_._manager = mgr
+
+
 def h_fault(ctx, kind, n_ops):
     st, insts, locks, disp, net, noise, top = build()
     pos = ctx.choice("position", list(range(n_ops)))
@@ -290,7 +344,25 @@ def h_fault(ctx, kind, n_ops):
                 err = _inject_fault(ctx, kind, st, insts, disp, net, noise, top)
             except WouldBlock as e:
                 return obs + [("no-operation-blocks (%s)" % e, False)]
-            obs.append(("error-reported-to-caller", err is not None))
+            if kind not in SILENT:
+                obs.append(("error-reported-to-caller", err is not None))
+            else:
+                obs.append(("the lost connection is announced to the application once (%d)" % top.saw_disconnect, top.saw_disconnect == 1 and err is None))
+            if kind == "key-request-for-incoming-message-fails-below":
+                # the same contact writes again: the message is handled like the first one -- a key request leaves (it is not parked for ever)
+                n0 = len(disp.sent)
+                try:
+                    net.receive(_seg(_frame(_enc_message("m2"))))
+                    obs.append(("a later message of the same contact triggers a key request again", len(disp.sent) > n0))
+                except WouldBlock as e:
+                    return obs + [("later-operation-blocks-forever (%s)" % e, False)]
+                ST_restore = ST.ManagerStub(True)
+                for l in insts:
+                    if hasattr(l, "_manager"):
+                        l._manager = ST_restore
+                    for s_ in getattr(l, "sublayers", ()):
+                        if hasattr(s_, "_manager"):
+                            s_._manager = ST_restore
             held = sorted(l.name for l in locks.values() if l.held)
             obs.append(("no-lock-held-after-failure (held: %s)" % held, not held))
         else:
